@@ -122,6 +122,8 @@ type Assign struct {
 	Loc  core.Loc
 }
 
+var assignDepth int
+
 // assignsIn lists assignments in the unit's own body whose LHS satisfies match.
 func assignsIn(u *core.Unit, match func(lhs ast.Expr) bool) []Assign {
 	var out []Assign
@@ -148,6 +150,21 @@ func assignsIn(u *core.Unit, match func(lhs ast.Expr) bool) []Assign {
 		}
 		return true
 	})
+	// assignments made by transparent helpers (novel private functions that are only ever called: code that moved out
+	// of this function) count as made here, at the helper call
+	for _, cl := range u.Calls() {
+		if cl.Inlined != nil || cl.Callee == nil || !u.Prog.IsTransparent(cl.Callee) {
+			continue
+		}
+		if h := u.Prog.UnitOf(cl.Callee); h != nil && h != u.Root() && assignDepth < 3 {
+			assignDepth++
+			for _, a := range assignsIn(h, match) {
+				a.Loc = cl.Loc
+				out = append(out, a)
+			}
+			assignDepth--
+		}
+	}
 	return out
 }
 
@@ -395,4 +412,35 @@ func sameVal(u *core.Unit, a, b ast.Expr) bool {
 		return false
 	}
 	return da == db
+}
+
+// localVarByName: the local variable of u's root function known to the tables as name.
+func localVarByName(u *core.Unit, name string) *types.Var {
+	var out *types.Var
+	info := u.Info()
+	ast.Inspect(u.Root().Body, func(n ast.Node) bool {
+		if id, ok := n.(*ast.Ident); ok && out == nil {
+			if v, isV := info.Defs[id].(*types.Var); isV && !v.IsField() && (core.CanonName(v) == name || v.Name() == name) {
+				out = v
+			}
+		}
+		return true
+	})
+	return out
+}
+
+// ltNorm normalises a relational comparison to "lhs < rhs": pol = +1 when the
+// true edge establishes it, -1 when the false edge does, 0 for other operators.
+func ltNorm(be *ast.BinaryExpr) (lhs, rhs ast.Expr, pol int) {
+	switch be.Op {
+	case token.LSS:
+		return be.X, be.Y, 1
+	case token.GTR:
+		return be.Y, be.X, 1
+	case token.GEQ:
+		return be.X, be.Y, -1
+	case token.LEQ:
+		return be.Y, be.X, -1
+	}
+	return nil, nil, 0
 }
